@@ -263,6 +263,32 @@ def one_case(ctx, rng, ci):
             report("project", "jit", f"raised {common.exc_mechanism(jp)}: {str(jp)[:120]}")
         else:
             cmpw("project", "jit", jp, ep, max(1, len(rec.assign)))
+    # ---------------- one jitted driver shared by two functions that differ only in a captured
+    # constant (same source line): the compiled code of the first must not be reused for the second
+    if not unspec and ci % 3 == 0:
+        import jax.tree_util as jtu
+
+        def _shift(r, off):
+            return jtu.tree_map(lambda x: x + off if jnp.issubdtype(jnp.asarray(x).dtype, jnp.floating) else x, r)
+
+        def mk(off):
+            return gf.map(lambda r: _shift(r, off))
+
+        g1, g2 = mk(0.25), mk(10.5)
+        drv = jax.jit(lambda g, k, a: g.simulate(k, a).get_retval())
+        outs = lib("simulate", lambda: (drv(g1, key, ja), drv(g2, key, ja)))
+        refs = lib("simulate", lambda: (g1.simulate(key, ja).get_retval(), g2.simulate(key, ja).get_retval()))
+        if isinstance(refs, Exception):
+            ctx.count("shared_driver_skipped")
+        elif isinstance(outs, Exception):
+            report("simulate", "shared-jit-driver", f"raised {common.exc_mechanism(outs)}: {str(outs)[:120]}")
+        else:
+            for which, (o, r) in enumerate(zip(outs, refs)):
+                ctx.count("mode_comparisons")
+                ctx.count("mode:shared-jit-driver")
+                d = tree.tcompare(build.from_real(o), build.from_real(r), common.close)
+                if d:
+                    report("simulate", "shared-jit-driver", f"function #{which + 1} through the shared driver: retval {d}")
     nt = (has_flag or any(k not in ("Dist", "Static") for k in case.kinds)) and edits > 0
     ctx.evaluation(fingerprint=(node.shape_sig(), has_flag), nontrivial=nt)
     ctx.sample({"case": case.cid, "program": case.src, "history": hist}, limit=2)
